@@ -237,9 +237,12 @@ pub enum Ctxt {
     Having,
     CaseWhen,
     AndChain,
+    /// `INSERT .. ON CONFLICT (id) DO UPDATE SET m = 1 WHERE <conditions>`: the conflicting rows for which the
+    /// action condition is true are the ones updated
+    ConflictAction,
 }
 
-const CONTEXTS: [Ctxt; 7] = [
+const CONTEXTS: [Ctxt; 8] = [
     Ctxt::SelectWhere,
     Ctxt::DeleteWhere,
     Ctxt::UpdateWhere,
@@ -247,6 +250,7 @@ const CONTEXTS: [Ctxt; 7] = [
     Ctxt::Having,
     Ctxt::CaseWhen,
     Ctxt::AndChain,
+    Ctxt::ConflictAction,
 ];
 
 pub struct Fix {
@@ -441,6 +445,44 @@ fn run_ctx(fx: &Fix, cx: Ctxt, calls: &[Call], inline: bool) -> Result<(String, 
                 .collect();
             out.sort();
             Ok((sql, out))
+        }
+        Ctxt::ConflictAction => {
+            fx.db.exec("SAVEPOINT c06").map_err(|e| e.msg)?;
+            let r = (|| {
+                let mut oc = OnConflict::column(id());
+                oc.value(Alias::new("m"), 1);
+                for c in calls {
+                    match c {
+                        Call::CondWhere(g) => {
+                            oc.action_cond_where(build_g(g));
+                        }
+                        Call::AndWhere(a, f) => {
+                            oc.action_and_where(leaf_expr(*a, *f));
+                        }
+                        Call::AndWhereOption(o) => {
+                            oc.action_and_where_option(o.map(|(a, f)| leaf_expr(a, f)));
+                        }
+                    }
+                }
+                let mut s = Query::insert();
+                s.into_table(tv())
+                    .columns([id(), Alias::new("a"), Alias::new("b"), Alias::new("c"), Alias::new("d")])
+                    .select_from(
+                        Query::select()
+                            .columns([id(), Alias::new("a"), Alias::new("b"), Alias::new("c"), Alias::new("d")])
+                            .from(tv())
+                            .and_where(Expr::cust("TRUE"))
+                            .to_owned(),
+                    )
+                    .map_err(|e| format!("{e:?}"))?
+                    .on_conflict(oc);
+                let (sql, v) = render(&s);
+                exec(&sql, &v)?;
+                Ok((sql, ids(fx.db.rows("SELECT id FROM tv WHERE m = 1").map_err(|e| e.msg)?)))
+            })();
+            let _ = fx.db.exec("ROLLBACK TO c06");
+            let _ = fx.db.exec("RELEASE c06");
+            r
         }
         Ctxt::DeleteWhere | Ctxt::UpdateWhere => {
             fx.db.exec("SAVEPOINT c06").map_err(|e| e.msg)?;
@@ -662,7 +704,7 @@ pub fn check(ctx: &Ctx, rep: &mut Report) {
             check_case(ctx, rep, &fx, n, Ctxt::SelectWhere, &calls, &label);
             check_case(ctx, rep, &fx, n, Ctxt::SelectWhere, &negated(&calls), &format!("{label} negated"));
             if i % 10 == (ctx.seed % 10) as usize || !ctx.quick() {
-                let cx = CONTEXTS[1 + (i / 10) % 5];
+                let cx = CONTEXTS[1 + (i / 10) % (CONTEXTS.len() - 2)];
                 check_case(ctx, rep, &fx, n, cx, &calls, &label);
             }
         }
